@@ -1,8 +1,9 @@
 //vp:property C28
 //vp:pkg ./promql
 //vp:roots ./storage ./tsdb/chunkenc ./tsdb/chunks ./model/value ./model/histogram ./util/stats ./util/zeropool
+//vp:thorough-only vpH_C28_matrixSlice_mixed
 //vp:assume the series iterator hands out histograms as chunk iterators do (copied into the caller's buffer or freshly allocated); storage's list iterator returns pointers into its stored samples, which matrixIterSlice then reuses as buffers - first harness version, false alarm
-//vp:bounds (the range selector evaluator.matrixIterSlice over storage.BufferedSeriesIterator is checked on the same mixed series: floats and histograms each exactly the non-stale samples of their kind inside (mint, maxt]) instant selector over a series mixing float samples and native (float) histogram samples: <=2 samples (thorough 3), each a float with arbitrary value bits or a histogram with arbitrary sum bits (staleness markers of both kinds included), timestamps, lookback, offset, start, step as in the float harness, 2 (thorough 3) consecutive steps on one shared iterator
+//vp:bounds (the range selector evaluator.matrixIterSlice over storage.BufferedSeriesIterator is checked on such mixed series with values 1.5 or the staleness marker (case split): floats and histograms each exactly the non-stale samples of their kind inside (mint, maxt]) instant selector over a series mixing float samples and native (float) histogram samples: <=2 samples (thorough 3), each a float with arbitrary value bits or a histogram with arbitrary sum bits (staleness markers of both kinds included), timestamps, lookback, offset, start, step as in the float harness, 2 (thorough 3) consecutive steps on one shared iterator
 package promql
 
 import (
@@ -134,10 +135,14 @@ func vpH_C28_matrixSlice_mixed() {
 		if i > 0 {
 			vpAssume(ss[i-1].t < ss[i].t)
 		}
+		val := 1.5 // the only value-dependent behaviour of the selector is the staleness marker: two concrete values
+		if vpShape("stale", 0, 1) == 1 {
+			val = math.Float64frombits(vpXStale)
+		}
 		if vpShape("kind", 0, 1) == 1 {
-			ss[i].fh = &histogram.FloatHistogram{Sum: vpFloat64(), Count: 1}
+			ss[i].fh = &histogram.FloatHistogram{Sum: val, Count: 1}
 		} else {
-			ss[i].f = vpFloat64()
+			ss[i].f = val
 		}
 		cs[i] = ss[i]
 	}
